@@ -73,12 +73,15 @@ Proof. exact unrequest_never_deletes_remote. Qed.
 Print Assumptions C20_gate_unrequest_never_deletes_remote.
 
 Theorem C20_gate_request_registers :
-  forall (w : gworld) (st : gst) (e : gent) (st' : gst) (plan : option (list N)),
+  forall (bo : bool) (w : gworld) (st : gst) (e : gent) (st0 : gst) (e0 : gent)
+    (st' : gst) (plan : option (list N)),
   find_ent (g_ents st) (g_key e) = Some e ->
-  g_request w st e = (st', plan) ->
+  fill_remote bo w st e = (st0, e0) ->
+  g_dir e0 = false ->
+  g_request bo w st e = (st', plan) ->
   kmem (g_key e) (g_req st') = true /\
   kmem (g_key e) (g_exc st') = false /\
-  (plan = None <-> g_path (g_rem e) = None) /\
+  (plan = None <-> g_path (g_rem e0) = None) /\
   (forall pl : list N,
    plan = Some pl ->
    (exists pre : list N, pl = pre ++ g_key e :: nil) /\
@@ -93,6 +96,53 @@ Theorem C20_gate_request_registers :
        g_oid (g_loc e') = None /\ g_sync_hash (g_rem e') = None /\ g_sync_path (g_rem e') = None))).
 Proof. exact request_registers. Qed.
 Print Assumptions C20_gate_request_registers.
+
+Theorem C20_gate_request_of_folder_registers_nothing :
+  forall (bo : bool) (w : gworld) (st : gst) (e : gent) (st0 : gst) (e0 : gent)
+    (st' : gst) (plan : option (list N)),
+  fill_remote bo w st e = (st0, e0) ->
+  g_dir e0 = true -> g_request bo w st e = (st', plan) -> g_req st' = g_req st0 /\ g_exc st' = g_exc st0.
+Proof. exact request_of_folder_registers_nothing. Qed.
+Print Assumptions C20_gate_request_of_folder_registers_nothing.
+
+Theorem C20_gate_request_by_id_never_raises :
+  forall (w : gworld) (st : gst) (e : gent) (o : N) (i : rinfo) (st' : gst) (plan : option (list N)),
+  find_ent (g_ents st) (g_key e) = Some e ->
+  g_oid (g_rem e) = Some o ->
+  find_robj w o = Some i -> g_request true w st e = (st', plan) -> plan <> None.
+Proof. exact request_by_id_never_raises. Qed.
+Print Assumptions C20_gate_request_by_id_never_raises.
+
+(* the code before the repairs fc0a567 / 2277c0d (g_request_legacy): the two statements above are false of it *)
+Theorem C20_legacy_request_by_id_refuted :
+  ~ legacy_by_id_never_raises_full.
+Proof. exact legacy_by_id_never_raises_refuted. Qed.
+Print Assumptions C20_legacy_request_by_id_refuted.
+
+Theorem C20_legacy_request_by_id_registers_then_raises :
+  snd (g_request_legacy wit_w (wit_st wit_file) wit_file) = None /\
+  kmem 1 (g_req (fst (g_request_legacy wit_w (wit_st wit_file) wit_file))) = true /\
+  snd (g_request true wit_w (wit_st wit_file) wit_file) = Some (1%N :: nil).
+Proof. exact legacy_by_id_registers_then_raises. Qed.
+Print Assumptions C20_legacy_request_by_id_registers_then_raises.
+
+Theorem C20_legacy_folder_request_refuted :
+  ~ legacy_folder_registers_nothing_full.
+Proof. exact legacy_folder_registers_nothing_refuted. Qed.
+Print Assumptions C20_legacy_folder_request_refuted.
+
+Theorem C20_legacy_folder_unrequest_deletes_local_folder :
+  let st1 := fst (g_request_legacy wit_w (wit_st wit_dir) wit_dir) in
+  let st2 := fst (g_request false wit_w (wit_st wit_dir) wit_dir) in
+  (exists e1 : gent,
+     find_ent (g_ents st1) 1 = Some e1 /\
+     snd (g_unrequest wit_w true st1 e1) = GDeleteLocal (1%N :: 7%N :: nil) :: nil /\
+     kmem 1 (g_exc (fst (g_unrequest wit_w true st1 e1))) = true) /\
+  (exists e2 : gent,
+     find_ent (g_ents st2) 1 = Some e2 /\
+     snd (g_unrequest wit_w true st2 e2) = nil /\ g_exc (fst (g_unrequest wit_w true st2 e2)) = nil).
+Proof. exact legacy_folder_unrequest_deletes_local_folder. Qed.
+Print Assumptions C20_legacy_folder_unrequest_deletes_local_folder.
 
 Theorem C20_gate_parents_first :
   forall (st : gst) (e : gent) (k : N),
@@ -435,7 +485,7 @@ Definition ex_rem : gside :=
 Definition ex_ent : gent :=
   {| g_key := 1; g_loc := cleared; g_rem := ex_rem; g_dir := false; g_lfresh := true; g_rfresh := false; g_discarded := false;
      g_conflicted := false |}.
-Definition ex_w : gworld := {| w_lpaths := []; w_loids := []; w_lhash := [] |}.
+Definition ex_w : gworld := {| w_lpaths := []; w_loids := []; w_lhash := []; w_robjs := [] |}.
 Definition ex_st (req exc : list N) : gst := {| g_ents := [ex_ent]; g_changeset := [1]; g_req := req; g_exc := exc |}.
 (* a pending remote-only file, not requested, no predicate: offered (it needs a get_latest) but finished at the gate *)
 Example ex_gate_blocks :
